@@ -24,6 +24,10 @@ from sgx.hsm2dongle import HSM2DongleSGX
 from comm.platform import Platform
 
 
+import os
+THOROUGH = os.environ.get("VERIF_TIER") == "thorough"
+
+
 class StopHere(Exception):
     """The flow reached the part that is not this property's subject (attestation setup)."""
 
@@ -188,7 +192,7 @@ FOCUS = ["device state", "operator answers", "pin"]
                                                          ["pin given", "pin typed", "pin given + any-pin", "pin typed + any-pin"][i % 4],
                                                          FOCUS[i // 8]),
             bounds="one input group symbolic per partition (the others at their 'preconditions hold' values): device mode {bootloader, "
-                   "signer, ui-heartbeat, none} x onboard byte 0..255 x echo ok/bad | operator answers: 2 symbolic selections (then 'no') "
+                   "signer, ui-heartbeat, none} x onboard byte 0..255 x echo ok/bad | operator answers: 2 (T: 3) symbolic selections (then 'no') "
                    "from 12 strings (yes / YES / y / no / n / empty / 'ye' / 's' / ...); PIN: symbolic selection from 9 "
                    "strings (valid, too short, digits only, non-alphanumeric, 9 chars, Latin-1 letter, empty); platform / PIN source / "
                    "any-pin are partitions",
@@ -210,7 +214,7 @@ def onboarding(m: int, onb: int, echo: bool, a0: int, a1: int, a2: int, p0: int,
         m, onb, echo = 0, 0, True
     if focus != 1:
         a0, a1, a2 = 0, 4, 4
-    else:
+    elif not THOROUGH:
         a2 = 4
     if focus != 2:
         p0, p1 = 0, 0
